@@ -98,6 +98,31 @@ def _guard_prefix(fd, stop_at_assign_attr=True, only_calls_prefix=None):
     return out
 
 
+def _guard_like(st):
+    if isinstance(st, ast.Expr) and isinstance(st.value, ast.Constant):
+        return True
+    if isinstance(st, ast.Expr) and isinstance(st.value, ast.Call):
+        f = st.value.func
+        name = f.attr if isinstance(f, ast.Attribute) else (f.id if isinstance(f, ast.Name) else "")
+        return name.startswith("_check") or name.startswith("check_")
+    if isinstance(st, ast.Raise):
+        return True
+    if isinstance(st, ast.If):
+        inner = list(st.body) + list(st.orelse)
+        return bool(inner) and all(_guard_like(x) for x in inner) and any(_has_guard(x) for x in inner)
+    return False
+
+
+def _has_guard(st):
+    if isinstance(st, ast.Raise):
+        return True
+    if isinstance(st, ast.Expr) and isinstance(st.value, ast.Call):
+        return True
+    if isinstance(st, ast.If):
+        return any(_has_guard(x) for x in list(st.body) + list(st.orelse))
+    return False
+
+
 def translate_ctor():
     shaper = _shaper_module()
     fd = function_ast(shaper.Shaper.__init__)
@@ -124,11 +149,8 @@ def translate_shex_graph():
     dmap = {p: d for p, d in zip(params[len(params) - len(defaults):], defaults)}
     env = LazyEnv(lambda name: fresh(name, dmap[name]) if name in dmap else None)
     body = []
-    for st in fd.body:   # the leading run of docstring + self._check_* calls
-        if isinstance(st, ast.Expr) and isinstance(st.value, ast.Constant):
-            body.append(st)
-        elif isinstance(st, ast.Expr) and isinstance(st.value, ast.Call) and isinstance(st.value.func, ast.Attribute) and \
-                st.value.func.attr.startswith("_check"):
+    for st in fd.body:   # the leading run of guard-like statements (docstring, _check_* calls, ifs made only of those / raises)
+        if _guard_like(st):
             body.append(st)
         else:
             break
@@ -140,6 +162,11 @@ class LazyEnv(dict):
     def __init__(self, factory):
         dict.__init__(self)
         self._factory = factory
+
+    def clone(self):
+        c = LazyEnv(self._factory)
+        c.update(self)
+        return c
 
     def __contains__(self, k):
         if dict.__contains__(self, k):
